@@ -293,9 +293,51 @@ fn part_c(rep: &Report) {
     }
 }
 
+/// (d) a message the decoder refuses after it has read the header (body nested beyond the limit, unknown tag, truncated
+/// body) must leave the cache as the sender's: the header's announcements count, earlier entries stay. Through the
+/// decoder and through the connection's frame entry point.
+fn part_d(rep: &Report) {
+    let t2: Vec<String> = vec!["first".into(), "second".into()];
+    let t3: Vec<String> = vec!["first".into(), "second".into(), "third".into()];
+    let announce = { let hdr: Vec<HdrRef> = vec![HdrRef { segment: 0, index: 0, new_text: Some(t2[0].clone()) }, HdrRef { segment: 3, index: 9, new_text: Some(t2[1].clone()) }]; let mut b = write_dist_header(&hdr); w_term_cached(&mut b, &RefVal::Tuple(vec![RefVal::int(2), RefVal::atom("first"), RefVal::atom("second")]), &t2); b };
+    let bad_bodies: Vec<(&str, Vec<u8>)> = vec![
+        ("payload nested 300 deep", { let mut v = vec![]; for _ in 0..300 { v.extend_from_slice(&[104, 1]); } v.extend_from_slice(&[97, 1]); v }),
+        ("unknown tag in the payload", vec![104, 2, 97, 1, 200]),
+        ("payload cut short", vec![104, 3, 97, 1]),
+    ];
+    let final_ctl = RefVal::Tuple(vec![RefVal::int(2), RefVal::atom("third"), RefVal::atom("first"), RefVal::atom("second")]);
+    for (what, body) in &bad_bodies {
+        for via_connection in [false, true] {
+            rep.add("evaluations", 1);
+            let mut cache = erltf::AtomCache::new();
+            let dec = |bytes: &[u8], cache: &mut erltf::AtomCache| -> Result<RefVal, String> {
+                if via_connection { edp_client::Connection::decode_complete_fragment(bytes, cache).map(|(c, _)| denote(&c.to_term())).map_err(|e| e.to_string()) }
+                else { erltf::decode_with_atom_cache(bytes, cache).map(|(t, _)| denote(&t)).map_err(|e| e.to_string()) }
+            };
+            let r1 = dec(&announce, &mut cache);
+            // refused message: old references to both entries, one more announcement, control {2, ...}, then the bad payload
+            let hdr2: Vec<HdrRef> = vec![HdrRef { segment: 0, index: 0, new_text: None }, HdrRef { segment: 3, index: 9, new_text: None }, HdrRef { segment: 7, index: 255, new_text: Some("third".into()) }];
+            let mut m2 = write_dist_header(&hdr2);
+            w_term_cached(&mut m2, &RefVal::Tuple(vec![RefVal::int(2), RefVal::atom("first"), RefVal::atom("third")]), &t3);
+            m2.extend_from_slice(body);
+            let r2 = dec(&m2, &mut cache);
+            let hdr3: Vec<HdrRef> = vec![HdrRef { segment: 0, index: 0, new_text: None }, HdrRef { segment: 3, index: 9, new_text: None }, HdrRef { segment: 7, index: 255, new_text: None }];
+            let mut m3 = write_dist_header(&hdr3);
+            w_term_cached(&mut m3, &final_ctl, &t3);
+            let r3 = dec(&m3, &mut cache);
+            let ok = r1.is_ok() && r2.is_err() && matches!(&r3, Ok(c) if exact_eq(c, &final_ctl));
+            if !ok {
+                rep.violation("a refused message leaves the atom cache out of step with the sender", json!({"refused_because": what, "through": if via_connection { "Connection::decode_complete_fragment" } else { "decode_with_atom_cache" },
+                    "announcement": r1.map(|c| c.short()), "refused_message": r2.map(|c| c.short()), "message_with_old_references": r3.map(|c| c.short())}));
+            }
+        }
+    }
+}
+
 pub fn run(rep: &Report) -> serde_json::Value {
     part_a(rep);
     part_c(rep);
+    part_d(rep);
     let (states, transitions, execs, outcomes) = part_b(rep);
     json!({
         "states": states,
